@@ -33,6 +33,7 @@ void *memcpy(void *dst, const void *src, size_t n) {
       return dst;
     }
 #endif
+#ifdef CQV_LZ4_PARSEBACK
     {
       _Bool k_ok = __CPROVER_same_object(cqv_keep, dst) && __CPROVER_POINTER_OFFSET(cqv_keep) >= 0 &&
                    (size_t)__CPROVER_POINTER_OFFSET(cqv_keep) < __CPROVER_OBJECT_SIZE(dst) &&
@@ -43,6 +44,9 @@ void *memcpy(void *dst, const void *src, size_t n) {
       __CPROVER_havoc_object(dst);
       if (k_ok) *cqv_keep = saved;
     }
+#else
+    __CPROVER_havoc_object(dst);
+#endif
   }
   return dst;
 }
@@ -61,6 +65,7 @@ void *memset(void *dst, int c, size_t n) {
   __CPROVER_assert(match_len >= LZ4_SPEC_MINMATCH, "lz4c: match length >= minmatch"); \
   __CPROVER_assert(lz4_spec_match_allowed(src_size, (size_t)(ip - src), match_len), "lz4c: match starts >= 12 bytes before the end and leaves >= 5 literal bytes"); \
   __CPROVER_assert(lit_len == (size_t)(ip - anchor) && (size_t)(anchor - src) + lit_len + match_len <= src_size, "lz4c: sequence covers anchor..ip+match_len inside the input");
+#ifdef CQV_LZ4_PARSEBACK
 /* C10 parse-back of the length fields (plain stores, checked in place).  The format's length code for a
  * value v >= 15 is: nibble 15, then k bytes of 255, then one byte (v - 15 - 255k) that is < 255; the spec
  * parser lz4_spec_ext_len returns exactly 15 + 255k + last on such bytes.  Literal length: checked right
@@ -83,6 +88,9 @@ void *memset(void *dst, int c, size_t n) {
   __CPROVER_assert(match_len - 4 < 15 || !(cqv_j >= (size_t)(cqv_op_m - dst) && cqv_j + 1 < (size_t)(op - dst)) || dst[cqv_j] == 255, "lz4c: all match length bytes before the last are 255"); \
   __CPROVER_assert(cqv_keep != token || (lz4_spec_token_lit(*token) == (lit_len < 15 ? lit_len : 15) && lz4_spec_token_match(*token) == (match_len - 4 < 15 ? match_len - 4 : 15)), "lz4c: token nibbles are min(literal length,15) / min(match length-4,15)"); \
   __CPROVER_assert((size_t)cqv_op_m[-2] + 256u * (size_t)cqv_op_m[-1] == offset, "lz4c: offset bytes are the 16-bit little-endian offset");
+#else
+#define CQV_LZ4_MATCH_DONE
+#endif
 #define CQV_LZ4_LAST_BEGIN \
   __CPROVER_assert(src_size >= 13 && (size_t)(iend - anchor) >= LZ4_SPEC_LASTLITERALS, "lz4c: block ends with >= 5 literal bytes");
 
